@@ -149,6 +149,13 @@ def rule_prologue_trailer(check):
                 continue
             bl = {b_["local"] for b_ in hir.pat_bindings(h.rec["params"][body_arg[0]]["pat"])} if body_arg[0] < len(h.rec.get("params", [])) else set()
             inserts = [y for fh in prog.flat(h, 1) for y in fh.nodes() if y.get("k") == "MethodCall" and y["method"] in INS and (hir.local_of(y["recv"]) or (None,))[0] in bl]
+            # ... or rebuilds the list and writes it back through the parameter (`*items = rebuilt`)
+            for y in h.nodes():
+                if y.get("k") == "Assign":
+                    pl_ = hir.place(y["l"]) or ""
+                    root_ = pl_.split(".")[0].lstrip("*")
+                    if "#" in root_ and root_.split("#")[1].isdigit() and int(root_.split("#")[1]) in bl:
+                        inserts.append(y)
             if not inserts:
                 continue
             vs = [str(hir.pat_variant(c_["pat"])).split("::")[-1] for c_ in g.conds_at(x) if c_["t"] == "pat" and c_["v"] and "Program::" in str(hir.pat_variant(c_["pat"]))]
@@ -216,6 +223,9 @@ def rule_js_handback(check):
     check.expect(bool(sites), R, R + "/content", js.loc(m), "response.content = code", "NonCacheRewriter.rewrite does not hand back the caller's code for not-modified results")
     if sites:
         jsguards.expect_gate(check, R, R + "/content-gate", js.loc(sites[0]), reach.any_of(sites), NOT, "the caller's code is handed back")
+    # `code` still is the caller's text when it is handed back: the parameter is never written
+    rewrites = [x for x in jsast.walk(m) if (x.get("type") == "AssignmentExpression" and jsast.ident_name(x["left"]) == params[0]) or (x.get("type") == "UpdateExpression" and jsast.ident_name(x.get("argument")) == params[0]) or (x.get("type") == "VariableDeclarator" and jsast.ident_name(x.get("id")) == params[0])]
+    check.expect(not rewrites, R, R + "/code-untouched", js.loc(rewrites[0]) if rewrites else js.loc(m), "the `code` parameter is never reassigned or shadowed", "`%s` is reassigned before it is handed back: a not-modified file does not come back byte for byte" % params[0])
     last = body[-1]
     ok_ret = last["type"] == "ReturnStatement" and jsast.ident_name(last.get("argument")) == resp
     others = [x for x in jsast.walk(m["function"]["body"]) if x.get("type") == "ReturnStatement" and x is not last]
